@@ -150,7 +150,7 @@ pub fn gen_price_case(r: &mut Rng, exact: bool, rich: bool) -> PriceCase {
     if rich || r.chance(1, 4) {
         for c in &comms {
             if r.chance(1, 2) {
-                entries.push(Entry::Format(*c, *r.pick(&[0u32, 2, 2, 3])));
+                entries.push(Entry::Format(*c, gen_dp(r), FmtLit::gen(r)));
             }
         }
     }
@@ -218,7 +218,7 @@ pub fn gen_price_case(r: &mut Rng, exact: bool, rich: bool) -> PriceCase {
                 }
             }
         };
-        entries.push(Entry::Txn(Txn { effective: pick_effective(r, date, span), date, posts }));
+        entries.push(Entry::Txn(Txn { effective: pick_effective(r, date, span), date, posts, head: Head::gen(r) }));
     }
     // plain holdings without a price, also in commodities no price mentions
     let nhold = if rich { 1 + r.below(4) } else { r.below(2) };
@@ -239,6 +239,7 @@ pub fn gen_price_case(r: &mut Rng, exact: bool, rich: bool) -> PriceCase {
                 Posting { account: acct, amount: Some(lit(m, s, c)), cost: None, lot: None, balance: None },
                 Posting { account: other, amount: None, cost: None, lot: None, balance: None },
             ],
+            head: Head::gen(r),
         }));
     }
     // file order is not date order
@@ -250,7 +251,7 @@ pub fn gen_price_case(r: &mut Rng, exact: bool, rich: bool) -> PriceCase {
     if rich && r.chance(1, 5) {
         let c = *r.pick(&comms);
         let at = r.below(entries.len() as u64 + 1) as usize;
-        entries.insert(at, Entry::Format(c, *r.pick(&[0u32, 2, 3])));
+        entries.insert(at, Entry::Format(c, gen_dp(r), FmtLit::gen(r)));
     }
     PriceCase { entries, db, comms, exact }
 }
@@ -359,7 +360,7 @@ pub fn known_commodities(case: &PriceCase) -> Vec<usize> {
                     }
                 }
             }
-            Entry::Format(c, _) => {
+            Entry::Format(c, _, _) => {
                 s.insert(*c);
             }
             Entry::Comment => {}
